@@ -855,21 +855,58 @@ class patched:
         self.saved = []
 
 
+_DIRECT_NAMES = ("Lock", "RLock", "Condition", "Event", "Semaphore", "BoundedSemaphore", "Thread")
+
+
+def _uberjob_modules():
+    import sys
+
+    import uberjob  # noqa: F401
+
+    return [m for name, m in sorted(sys.modules.items())
+            if m is not None and (name == "uberjob" or name.startswith("uberjob."))
+            and not name.startswith("uberjob.progress") and getattr(m, "__file__", None)]
+
+
 def engine_modules():
+    """Every module of uberjob's engine that refers to `threading` (wherever the implementation keeps its
+    synchronisation: the checks must not depend on which file that is), plus the stdlib `queue`."""
     import queue
 
+    mods = [m for m in _uberjob_modules() if getattr(m, "threading", None) is _rt]
     import uberjob._execution.run_function_on_graph as rfog
 
-    return [rfog, queue]
+    if rfog not in mods and hasattr(rfog, "threading"):
+        mods.append(rfog)
+    return mods + [queue]
+
+
+def engine_direct_imports():
+    """(module, name, model) for names imported with `from threading import X` in engine modules."""
+    out = []
+    for m in _uberjob_modules():
+        if not (m.__name__.startswith("uberjob._execution") or m.__name__.startswith("uberjob._transformations")
+                or m.__name__.startswith("uberjob._util")):
+            continue
+        for name in _DIRECT_NAMES:
+            if getattr(m, name, None) is getattr(_rt, name):
+                out.append((m, name, getattr(MODEL, name)))
+    return out
 
 
 def engine_files():
+    import os
+
     import uberjob._execution.run_function_on_graph as a
-    import uberjob._execution.run_physical as c
-    import uberjob._execution.scheduler as b
     import uberjob._transformations.caching as d
 
-    return [m.__file__ for m in (a, b, c, d)]
+    files = set()
+    ex_dir = os.path.dirname(a.__file__)
+    for m in _uberjob_modules():
+        f = m.__file__
+        if os.path.dirname(f) == ex_dir or f == d.__file__ or getattr(m, "threading", None) is _rt:
+            files.add(f)
+    return sorted(files)
 
 
 def run_under(fn, policy, trace=True, modules=None, extra=None, max_steps=2_000_000,
@@ -882,6 +919,6 @@ def run_under(fn, policy, trace=True, modules=None, extra=None, max_steps=2_000_
     def main():
         box["result"] = fn()
 
-    with patched(modules or engine_modules(), extra):
+    with patched(modules or engine_modules(), list(extra or []) + (engine_direct_imports() if modules is None else [])):
         s.run(main)
     return s, box.get("result")
